@@ -106,6 +106,7 @@ type Exec struct {
 	aliasHook  func(*State)
 	fnValueOfCall *Term
 	inlining   map[*types.Var]bool
+	alias      map[string]*Term // ownership of []byte values: term (printed) -> Bool "may share memory with the caller's data"
 	loopOrd    map[ast.Node]string
 	loopStack  [][]int
 	stmtsSeen, stmtsLowered, stmtsDropped int
@@ -265,6 +266,9 @@ func verifyFunction(u *Universe, fi *FuncInfo, c *Contract) (obls []*Obligation,
 		t := x.fresh("p."+v.Name(), srt)
 		t.GoType = v.Type()
 		x.assumeWellTyped(st, t, v.Type())
+		if isByteSlice(v.Type()) {
+			x.setAlias(t, x.fresh("al."+v.Name(), SBool))
+		}
 		if x.boxed[v] {
 			cell := x.allocRef(st, "box."+v.Name())
 			pv, _ := u.ptrVar(v.Type())
@@ -575,6 +579,13 @@ func (x *Exec) merge(states []*State) []*State {
 		nv.GoType = first.GoType
 		for i, s := range states {
 			m.assume(Implies(guards[i], Eq(nv, s.vars[k])))
+		}
+		if isByteSlice(k.Type()) {
+			al := x.fresh("al.m."+k.Name(), SBool)
+			for i, s := range states {
+				m.assume(Implies(guards[i], Eq(al, x.getAlias(s.vars[k]))))
+			}
+			x.setAlias(nv, al)
 		}
 		m.vars[k] = nv
 	}
@@ -2123,6 +2134,9 @@ func (x *Exec) execTypeSwitch(s *State, st *ast.TypeSwitchStmt, entry *State) ou
 				var bv *Term
 				if len(c.List) == 1 {
 					bv = x.unbox(val, caseType)
+					if isByteSlice(caseType) {
+						x.setAlias(bv, True) // the dynamic value of an interface received from the caller is the caller's slice
+					}
 				} else {
 					bv = val
 				}
@@ -2178,4 +2192,46 @@ func (x *Exec) box(v *Term, t types.Type) *Term {
 	}
 	r := mk("box_"+mangle(v.Sort), SAny, v)
 	return r
+}
+
+// ---------------------------------------------------------------------------
+// ownership of byte slices (DESIGN 3.5): []byte values are modelled by their contents; whether a value may share
+// its backing array with data owned by the caller of the function under verification is tracked on the side.
+
+func isByteSlice(t types.Type) bool {
+	if t == nil {
+		return false
+	}
+	sl, ok := types.Unalias(t).Underlying().(*types.Slice)
+	if !ok {
+		return false
+	}
+	b, ok := types.Unalias(sl.Elem()).Underlying().(*types.Basic)
+	return ok && (b.Kind() == types.Byte || b.Kind() == types.Uint8)
+}
+
+func (x *Exec) setAlias(t *Term, a *Term) {
+	if x.alias == nil {
+		x.alias = map[string]*Term{}
+	}
+	x.alias[t.String()] = a
+}
+
+func (x *Exec) getAlias(t *Term) *Term {
+	if a, ok := x.alias[t.String()]; ok {
+		return a
+	}
+	// unknown provenance: may be shared
+	a := x.fresh("al.unknown", SBool)
+	x.setAlias(t, a)
+	return a
+}
+
+// freshBytes returns a term equal to v that denotes a newly allocated byte slice.
+func (x *Exec) freshBytes(s *State, v *Term, ty types.Type) *Term {
+	c := x.fresh("bytes", SStr)
+	c.GoType = ty
+	s.pc = append(s.pc, Eq(c, v))
+	x.setAlias(c, False)
+	return c
 }
